@@ -8,9 +8,18 @@ import (
 	"path/filepath"
 	"strings"
 
-	_ "github.com/elk-language/elk" // initialises the global environment
+	// the side-effect imports of the root package github.com/elk-language/elk (which has no
+	// initialiser of its own); importing them directly keeps the harness independent of files
+	// dropped into the checkout's root directory
 	"github.com/elk-language/elk/bitfield"
+	_ "github.com/elk-language/elk/ext/std"
+	_ "github.com/elk-language/elk/lexer/runtime"
+	_ "github.com/elk-language/elk/parser/ast/runtime"
+	_ "github.com/elk-language/elk/parser/runtime"
+	_ "github.com/elk-language/elk/position/diagnostic/runtime"
+	_ "github.com/elk-language/elk/repl/breakpoint"
 	"github.com/elk-language/elk/types/checker"
+	_ "github.com/elk-language/elk/types/runtime"
 	"github.com/elk-language/elk/vm"
 )
 
